@@ -622,6 +622,26 @@ def wrapper_guards(tier):
     with patched_module(D, 'c_hydrodiy_data', rec):
         D.aggregate(np.array([1, 1, 2]), np.array([1.0, np.nan, 3.0]), operator=2, maxnan=1)
     c = rec.calls[-1]
+    # output vectors of Catchment.intersect hold one entry per cell of the intersecting grid (c_intersect has no capacity check)
+    from hydrodiy.gis import grid as G
+    real = G.c_hydrodiy_gis
+    fine = G.Grid('fd', 6, 6, cellsize=1.0, dtype=np.int64)
+    fine.data = np.full((6, 6), 4, dtype=np.int64)
+    for (nr, nc, filled) in ((3, 3, False), (6, 6, True), (2, 5, True)):
+        ca = G.Catchment('c', fine)
+        ca._idxcells_area = np.array([0, 7, 14], dtype=np.int64)
+        ca._idxcells_area_filled = np.array([0, 1, 7, 14], dtype=np.int64)
+        coarse = G.Grid('g', nc, nr, cellsize=2.0)
+        rec2 = Recorder({'intersect': lambda cc: (cc.raw_args[7].__setitem__(0, 1), 0)[1], 'cell2coord': lambda cc: real.cell2coord(*cc.raw_args),
+                         'cell2rowcol': lambda cc: real.cell2rowcol(*cc.raw_args)})
+        with patched_module(G, 'c_hydrodiy_gis', rec2):
+            try:
+                ca.intersect(coarse, filled=filled)
+            except Exception:
+                pass
+        ci = [cc for cc in rec2.calls if cc.name == 'intersect'][0]
+        out.append(('intersect-output-vectors-hold-nrows*ncols-entries', len(ci.args[8]) == nr * nc and len(ci.args[9]) == nr * nc and len(ci.args[7]) == 1,
+                    dict(nrows=nr, ncols=nc, filled=filled, got=[len(ci.args[8]), len(ci.args[9])])))
     out.append(('aggregate-buffers', len(c.args[2]) == 3 and c.args[2].dtype == np.int32 and len(c.args[4]) == 3 and len(c.args[5]) == 1 and
                 int(c.args[0]) == 2 and int(c.args[1]) == 1, {}))
     return out
